@@ -15,6 +15,9 @@ type access struct {
 	fn, loc, base string
 	write         bool
 	locks         []string
+	pos           token.Pos
+	baseVar       *types.Var // the variable through which the field is reached, if the base is a plain identifier
+	recvType      types.Type // static type of the base
 }
 
 // genAccess: every read/write of a field of a struct type of this module, outside tests and
@@ -27,10 +30,11 @@ type access struct {
 func genAccess(pkgs []*packages.Package) {
 	var all []access
 	var calls []callSite
+	syn := map[string]fnSyntax{}
 	decl := map[*types.Func]string{}   // declared function ↦ its name in the table
 	valueUse := map[*types.Func]bool{} // referenced other than as the callee of a call
 	for _, p := range pkgs {
-		if !accessScope[shortPkg(p.PkgPath)] {
+		if skipPkg(p.PkgPath) {
 			continue
 		}
 		for _, f := range p.Syntax {
@@ -47,6 +51,7 @@ func genAccess(pkgs []*packages.Package) {
 				if o, ok := p.TypesInfo.Defs[fd.Name].(*types.Func); ok {
 					decl[o] = fn
 				}
+				syn[fn] = fnSyntax{fd, p.TypesInfo}
 				as, cs := accessesOf(p, fn, fd)
 				all = append(all, as...)
 				calls = append(calls, cs...)
@@ -149,13 +154,25 @@ func genAccess(pkgs []*packages.Package) {
 			}
 		}
 	}
-	copies = copies && rowCopy
+	// phase claims checked against the call graph: a function classified set-up-only that is reachable
+	// from the run roots (other than through a reviewed edge) is treated as run-phase
+	cg := buildCallGraph(pkgs)
+	// … and the copy reaches the rows: For.DeepCopy copies its matrix, Matrix.DeepCopy goes through the element-wise
+	// deepcopy.OrderedMap (orderedmap's own Copy() would share the *MatrixRow values)
+	chain := cg.edges["taskfile/ast:For.DeepCopy"]["taskfile/ast:Matrix.DeepCopy"] &&
+		cg.edges["taskfile/ast:Matrix.DeepCopy"]["internal/deepcopy:OrderedMap"]
+	copies = copies && rowCopy && chain
 	matrixCopied = copies
+	ph := checkPhases(cg)
 	// classification
-	total, setup, confined := len(all), 0, 0
+	total, setup, confined, outside := len(all), 0, 0, 0
 	var rel []access
 	for _, a := range all {
-		if isSetupFunc(a.fn) {
+		if !accessScope[a.fn[:strings.Index(a.fn, ":")]] && !ph.reach[a.fn] {
+			outside++ // a package that does not run concurrently (loading, CLI, set-up) and is not reached from the run roots
+			continue
+		}
+		if isSetupFunc(a.fn) && !ph.promoted[a.fn] {
 			setup++
 			continue
 		}
@@ -204,7 +221,12 @@ func genAccess(pkgs []*packages.Package) {
 	}
 	body := "/-- run-phase, non-confined accesses to locations that have a run-phase write:\n(location Type.field, function, base expression, is-write, mutexes held) -/\n" +
 		"def accesses : List (String × String × String × Bool × List String) := [\n  " + strings.Join(rows, ",\n  ") + "]\n\n" +
-		fmt.Sprintf("def totalAccesses : Nat := %d\ndef setupPhaseAccesses : Nat := %d\ndef confinedAccesses : Nat := %d\n\n/-- itemsFromFor works on a private copy of the loop definition before resolving matrix refs -/\ndef itemsFromForCopiesMatrix : Bool := %v\n", total, setup, confined, copies)
+		fmt.Sprintf("def totalAccesses : Nat := %d\ndef setupPhaseAccesses : Nat := %d\ndef confinedAccesses : Nat := %d\ndef outsideAccesses : Nat := %d\n\n/-- itemsFromFor works on a private copy of the loop definition before resolving matrix refs -/\ndef itemsFromForCopiesMatrix : Bool := %v\n", total, setup, confined, outside, copies)
+	body += ph.lean()
+	body += genConfinement(pkgs)
+	body += genChanOrder(all, syn)
+	body += genReturnsParam(pkgs)
+	body += genCopyFacts(pkgs)
 	writeLean("Access", "Shared-state accesses that can happen while tasks run concurrently, with the mutexes syntactically held.", body)
 }
 
@@ -460,7 +482,8 @@ func accessesOf(p *packages.Package, fn string, fd *ast.FuncDecl) ([]access, []c
 		if tn, ok := sel.Obj().Type().(*types.Named); ok && tn.Obj().Pkg() != nil && tn.Obj().Pkg().Path() == "sync" {
 			return true
 		}
-		out = append(out, access{fn: fn, loc: ty + "." + se.Sel.Name, base: baseOrigin(info, fd, se.X), write: writes[se], locks: held(se.Pos())})
+		out = append(out, access{fn: fn, loc: ty + "." + se.Sel.Name, base: baseOrigin(info, fd, se.X), write: writes[se], locks: held(se.Pos()),
+			pos: se.Pos(), baseVar: baseVarOf(info, se.X), recvType: sel.Recv()})
 		return true
 	})
 	ast.Inspect(fd.Body, func(n ast.Node) bool {
